@@ -18,6 +18,8 @@
   implied by "all plain" / "all timestamped".
 -/
 import NoirVerif.Lemmas.Zip
+import NoirVerif.Lemmas.Route
+import NoirVerif.Props.C03
 namespace Noir.Zip
 open Noir.Join (Bin Interleave)
 
@@ -177,3 +179,181 @@ example :
 example : (stateAfter (State.init : State Nat Nat) [.item (.left 1), .ts (.right 10) 4]).panicked = true := by decide
 
 end Noir.Zip
+
+/-! ## route (`RoutingEnd`, src/operator/route.rs) -/
+namespace Noir.Route
+open Noir.Placement (Coord)
+
+variable {α : Type}
+
+/-- **C09 (route: first matching route only).** In a set-up `RoutingEnd` (routes towards the blocks
+    `routes`, filters `preds`, in `add_route` order), if route `k` is the first whose filter accepts the
+    item then the item — plain or timestamped — is enqueued to exactly ONE sender, a sender towards route
+    `k`'s block, and to nothing else, even if later routes accept it too. -/
+theorem route_first_match_only {me : Nat} {routes : List Nat} {next : List (Coord × Bool)} {st : State}
+    (hs : setup me routes next = some st) (preds : List (α → Bool)) (a : α) (k b : Nat)
+    (hb : routes[k]? = some b) (hk : (preds[k]?).map (· a) = some true)
+    (hbefore : ∀ j, j < k → (preds[j]?).map (· a) = some false) :
+    ∃ i, st.blockAt i = some b ∧
+      (step preds 0 st (.item a)).2 = [(i, .item a)] ∧
+      ∀ t, (step preds 0 st (.ts a t)).2 = [(i, .ts a t)] := by
+  have ok := setup_ok hs
+  have hbm : b ∈ routes := List.mem_of_getElem? hb
+  have hg : st.groups[k]? = some (Router.indexesOf st.blocks b) := by
+    rw [ok.groups, List.getElem?_map, hb]; rfl
+  cases hi : Router.indexesOf st.blocks b with
+  | nil => exact absurd hi (ok.nonempty b hbm)
+  | cons i is =>
+    have hmem : i ∈ Router.indexesOf st.blocks b := by rw [hi]; exact List.mem_cons_self
+    have hblock : st.blockAt i = some b := by
+      rw [blockAt_eq]; exact (Router.mem_indexesOf _ _ _).mp hmem
+    have hrd := Router.route_first_match_only st.groups (accepts preds a) 0 k _ hg
+      (by rw [accepts_getElem?]; exact hk) (fun j hj => by rw [accepts_getElem?]; exact hbefore j hj)
+    rw [hi] at hrd
+    have := step_data preds 0 st a ok.closed ok.panicked [i] (by simpa using hrd)
+    exact ⟨i, hblock, by simpa using this.1, fun t => by simpa using this.2 t⟩
+
+/-- **C09 (route: unmatched elements are dropped).** An item no filter accepts is enqueued to nobody;
+    the operator goes on (nothing fails, the state is unchanged). -/
+theorem route_unmatched_dropped (preds : List (α → Bool)) (st : State)
+    (hc : st.closed = false) (hp : st.panicked = false) (a : α) (h : ∀ p ∈ preds, p a = false) :
+    step preds 0 st (.item a) = (st, []) ∧ ∀ t, step preds 0 st (.ts a t) = (st, []) := by
+  have hrd := Router.route_unmatched_dropped st.groups (accepts preds a) 0 (by
+    intro x hx
+    simp only [accepts, List.mem_map] at hx
+    obtain ⟨p, hp', rfl⟩ := hx
+    exact h p hp')
+  simp [step, hp, hc, hrd, Elem.isTerm]
+
+/-- **C09 (route: control elements go to every route).** Watermarks, `FlushAndRestart` and `Terminate`
+    are enqueued to every connected replica of every route exactly once (the enqueued sender indexes
+    are duplicate-free and are exactly the valid ones); `FlushBatch` is enqueued to nobody. -/
+theorem route_control_to_all {me : Nat} {routes : List Nat} {next : List (Coord × Bool)} {st : State}
+    (hs : setup me routes next = some st) (preds : List (α → Bool)) :
+    ∃ targets : List Nat, targets.Nodup ∧ (∀ i, i ∈ targets ↔ i < st.senders.length) ∧
+      (∀ t, (step preds 0 st (.wm t)).2 = targets.map (fun i => (i, Elem.wm t))) ∧
+      (step preds 0 st .far).2 = targets.map (fun i => (i, (Elem.far : Elem α))) ∧
+      (step preds 0 st .term).2 = targets.map (fun i => (i, (Elem.term : Elem α))) ∧
+      (step preds 0 st .flushBatch).2 = [] := by
+  have ok := setup_ok hs
+  have hf := flatten_groups ok
+  exact ⟨st.groups.flatten, hf.1, hf.2, step_control preds 0 st ok.closed ok.panicked⟩
+
+/-- three routes towards blocks 7, 3, 5 (`lt5`, `even`, `always`; the senders are sorted by block, so the
+    route groups are `[[2], [0], [1]]`): 4 goes to block 7 only although all
+    three filters accept it; 6 to block 3; 9 to block 5; with the last route removed 9 is dropped -/
+example :
+    let preds : List (Nat → Bool) := [(· < 5), (· % 2 == 0), fun _ => true]
+    let st : State := { senders := [⟨⟨3, 0, 0⟩, 0⟩, ⟨⟨5, 0, 0⟩, 0⟩, ⟨⟨7, 0, 0⟩, 0⟩], groups := [[2], [0], [1]] }
+    ((step preds 0 st (.item 4)).2.map fun p => (st.blockAt p.1, p.2)) = [(some 7, .item 4)] ∧
+    ((step preds 0 st (.item 6)).2.map fun p => (st.blockAt p.1, p.2)) = [(some 3, .item 6)] ∧
+    ((step preds 0 st (.item 9)).2.map fun p => (st.blockAt p.1, p.2)) = [(some 5, .item 9)] ∧
+    (step (preds.take 2) 0 st (.item 9)).2 = [] := by decide
+
+end Noir.Route
+
+/-! ## split, broadcast (the `End` operator, `Model/Router.lean`) and merge (binary start) -/
+namespace Noir.Router
+open Noir.Placement (Coord)
+
+variable {α : Type}
+
+/-- **C09 (split: every branch gets every element).** `split(k)` clones the downstream block `k`
+    times (`clone_block`, src/environment.rs:154: every clone is connected to the same previous
+    block), so the `End` of the split block — strategy `OnlyOne` — has `k` downstream blocks. For every
+    strategy other than broadcast a data element is enqueued, for EVERY downstream block, to exactly
+    one sender towards that block, and to nothing else (`data_exactly_one_per_block`, C03). -/
+theorem split_every_branch_complete (cfg : Cfg) (hs : cfg.strategy ≠ .all) (hash : α → Nat) (rnd me : Nat)
+    (next : List (Coord × Bool)) (a : α) :
+    let st := setup cfg me next
+    let out := (step cfg hash rnd st (.item a)).2
+    (∀ b ∈ st.blocks, (out.filter (fun p => st.blocks[p.1]? == some b)).length = 1) ∧
+    out.length = (blocksOf st.blocks).length ∧ (∀ p ∈ out, p.2 = .item a) ∧
+    (step cfg hash rnd st (.item a)).1 = st := by
+  intro st out
+  have hd := (step_data cfg hash rnd st a rfl rfl).1
+  have h1 := data_exactly_one_per_block cfg hs me next (cfg.strategy.index rnd (hash a))
+  have hout : out = (dataTargets st (cfg.strategy.index rnd (hash a))).map (fun i => (i, Elem.item a)) := hd
+  refine ⟨?_, ?_, ?_, ?_⟩
+  · intro b hb
+    rw [hout, List.filter_map, List.length_map]
+    exact h1.1 b hb
+  · rw [hout, List.length_map]; exact h1.2.2
+  · intro p hp
+    rw [hout] at hp
+    obtain ⟨i, _, rfl⟩ := List.mem_map.mp hp
+    rfl
+  · have hc : st.closed = false := rfl
+    have hp : st.panicked = false := rfl
+    simp [step, hc, hp, Elem.isTerm]
+
+/-- … hence over a whole stream of data elements every branch (downstream block) receives the
+    complete stream, in order, exactly once. -/
+theorem split_every_branch_complete_stream (cfg : Cfg) (hs : cfg.strategy ≠ .all) (hash : α → Nat) (me : Nat)
+    (next : List (Coord × Bool)) (xs : List α) (rnds : List Nat) :
+    let st := setup cfg me next
+    ∀ b ∈ st.blocks,
+      (((run cfg hash st rnds (xs.map Elem.item)).flatten.filter
+          (fun p => st.blocks[p.1]? == some b)).map (·.2)) = xs.map Elem.item := by
+  intro st b hb
+  induction xs generalizing rnds with
+  | nil => rfl
+  | cons x xs ih =>
+    have h := split_every_branch_complete cfg hs hash (rnds.headD 0) me next x
+    simp only [List.map_cons, run]
+    rw [h.2.2.2]
+    simp only [List.flatten_cons, List.filter_append, List.map_append]
+    rw [ih rnds.tail]
+    have hone := h.1 b hb
+    have hall := h.2.2.1
+    match hf : (step cfg hash (rnds.headD 0) st (.item x)).2.filter (fun p => st.blocks[p.1]? == some b) with
+    | [] => rw [hf] at hone; cases hone
+    | [p] =>
+      have hp : p ∈ (step cfg hash (rnds.headD 0) st (.item x)).2 :=
+        (List.mem_filter.mp (by rw [hf]; exact List.mem_cons_self)).1
+      rw [hf]
+      simp [hall p hp]
+    | _ :: _ :: _ => rw [hf] at hone; simp at hone
+
+/-- **C09 (broadcast reaches every replica).** With strategy `All` (`Stream::broadcast`,
+    operator/mod.rs:1107) every data element is enqueued to every connected downstream replica exactly
+    once. -/
+theorem broadcast_every_replica (cfg : Cfg) (hs : cfg.strategy = .all) (hash : α → Nat) (rnd me : Nat)
+    (next : List (Coord × Bool)) (a : α) :
+    let st := setup cfg me next
+    (step cfg hash rnd st (.item a)).2 = (List.range st.senders.length).map (fun i => (i, Elem.item a)) ∧
+    ∀ t, (step cfg hash rnd st (.ts a t)).2 = (List.range st.senders.length).map (fun i => (i, Elem.ts a t)) := by
+  intro st
+  have hd := step_data cfg hash rnd st a rfl rfl
+  have hall := all_reaches_every_replica cfg hs me next rnd (hash a)
+  exact ⟨by rw [hd.1, hall], fun t => by rw [hd.2 t, hall]⟩
+
+end Noir.Router
+
+namespace Noir.Merge
+open Noir.Join
+
+variable {γ : Type}
+
+/-- **C09 (merge = multiset union).** Whatever the interleaving of the two sides (`arr`, with any
+    number of replicas per side and any placement of their `FlushAndRestart`s / `Terminate`s), the
+    payloads `merge` emits are exactly the payloads that arrived, in arrival order — so each side's
+    order is preserved and the output is the multiset union of the two inputs. -/
+theorem merge_union (s : BinStart.State) (arr : List (Bool × Elem γ)) :
+    mergeVals (front s arr) = arr.filterMap (fun p => p.2.value) ∧
+    (mergeVals (front s arr)).Perm (sideVals true arr ++ sideVals false arr) := by
+  refine ⟨front_vals arr s, ?_⟩
+  rw [front_vals arr s]
+  have h := filterMap_split_perm (fun p : Bool × Elem γ => p.2.value) (fun p => p.1 == true) arr
+  have hneg : (arr.filter fun p => !(p.1 == true)) = arr.filter fun p => p.1 == false := by
+    apply List.filter_congr; intro p _; cases p.1 <;> rfl
+  rw [hneg] at h
+  exact h
+
+/-- left `1 2`, right `10`, two left replicas: the end markers are dropped, every payload once -/
+example :
+    mergeVals (front (BinStart.State.init 2 1)
+      [(true, .item 1), (false, .item 10), (true, .far), (false, .far), (true, .item 2), (true, .far)])
+    = [1, 10, 2] := by decide
+
+end Noir.Merge
